@@ -60,8 +60,12 @@ func RunUnit(u *Unit, shard, nshards int, deadline time.Time, boundOverride int)
 	dir := filepath.Join(tmp, "proj")
 	os.MkdirAll(dir, 0o755)
 	if u.Custom != nil {
+		t0 := time.Now()
 		r := u.Custom(u, dir, deadline)
 		r.Unit = u.Name
+		if r.Stats.WallS == 0 {
+			r.Stats.WallS = time.Since(t0).Seconds()
+		}
 		return r
 	}
 	if err := u.Sc.Materialise(dir); err != nil {
